@@ -63,8 +63,31 @@ def gen_schedule(r, n_clients, keys, engine, faults=False, reads=True, exhaustiv
             tokens += [i] * 4
         r.shuffle(tokens)
         order = tokens
+    # reader clients stepped through their storage calls like the writers (List: floor check, scan; Get: one iteration)
+    readers = []
+    if reads and exhaustive_order is None:
+        for j in range(r.randint(0, 2)):
+            if r.random() < 0.6:
+                rq = "list %s %s %s %d" % (hx(PREFIX + b"/"), hx(PREFIX + b"0"), r.choice(["0", "0", str(INIT + npre + r.randint(0, n_clients))]), r.choice([0, 0, 2]))
+                nsteps = 2
+            else:
+                rq = "get %s %s" % (hx(r.choice(keys)), r.choice(["0", "c", "c+1"]))
+                nsteps = 1
+            readers.append((n_clients + j, rq))
+            pos = sorted(r.sample(range(len(order) + 1), nsteps + 1))
+            for off, p in enumerate(pos):
+                order.insert(p + off, n_clients + j)
+    rreq = dict(readers)
     started = set()
     for i in order:
+        if i in rreq:
+            if i not in started:
+                started.add(i)
+                lines.append("rev")
+                lines.append("start r%d %s" % (i + 1, rreq[i]))
+            else:
+                lines.append("step r%d" % (i + 1))
+            continue
         if i not in started:
             # a request begins at its first token; the remaining tokens are its steps
             started.add(i)
@@ -92,6 +115,9 @@ def gen_schedule(r, n_clients, keys, engine, faults=False, reads=True, exhaustiv
     for i in range(n_clients):
         for _ in range(4):
             lines.append("step c%d" % (i + 1))
+    for i, _rq in readers:
+        for _ in range(2):
+            lines.append("step r%d" % (i + 1))
     lines.append("rev")
     for k in keys:
         lines.append("get %s 0" % hx(k))
@@ -140,7 +166,7 @@ def parse(case):
     revs = []       # (line, committed)
     for i, (line, out) in enumerate(zip(case.lines, case.impl)):
         t, o = line.split(), out.split()
-        if t[0] == "start":
+        if t[0] == "start" and len(t) > 2 and t[2] in ("create", "update", "delete"):
             rq = Req(t[1], " ".join(t[2:]), i)
             reqs[t[1]] = rq
             order.append(rq)
